@@ -60,8 +60,57 @@ def _create(grp, name, data, layout):
     return grp.create_dataset(name, data=data, **kw)
 
 
+NMANY = 71
+
+
+def build_many(path, variant, seed):
+    """Datasets made of many (> 32, > 64) small chunks: the chunk-wise copy
+    loops of the tasks run over many iterations and end with a partial
+    block, as they do for real files with tens of thousands of events."""
+    n = NMANY
+    rs = np.random.RandomState(seed + 77)
+    filt = [dict(), dict(compression="gzip"), hdf5plugin.Zstd(clevel=1),
+            dict(compression="lzf"), hdf5plugin.Zstd(clevel=5),
+            dict(fletcher32=True)]
+    with h5py.File(path, "w") as h5:
+        for sec, dd in gen.complete_meta(n).items():
+            for k, v in dd.items():
+                h5.attrs[f"{sec}:{k}"] = v
+        h5.attrs["setup:software version"] = "ShapeIn 2.2.2.4 | dclab 0.62.7"
+        events = h5.create_group("events")
+        k = variant
+        for i, feat in enumerate(SCALARS[:6]):
+            data = np.round(rs.uniform(1, 50, n), 4)
+            events.create_dataset(feat, data=data, chunks=(1 + i % 2,),
+                                  **filt[(i + k) % len(filt)])
+        events.create_dataset("frame", data=np.arange(n, dtype=np.uint64)
+                              * 3 + 1, chunks=(2,), **filt[k % len(filt)])
+        img = rs.randint(0, 255, (n,) + gen.IMG_SHAPE).astype(np.uint8)
+        for i, feat in enumerate(["image", "image_bg"]):
+            d_ = events.create_dataset(
+                feat, data=img + i, chunks=(1 + i,) + gen.IMG_SHAPE,
+                **filt[(k + 2 * i + 1) % len(filt)])
+            d_.attrs.create("CLASS", np.bytes_("IMAGE"))
+        events.create_dataset(
+            "mask", data=(img > 128).astype(np.uint8) * 255,
+            chunks=(2,) + gen.IMG_SHAPE, **filt[(k + 2) % len(filt)])
+        tr = events.create_group("trace")
+        for i, t in enumerate(["fl1_raw", "fl1_median"]):
+            tr.create_dataset(
+                t, data=rs.randint(-50, 900, (n, gen.TRACE_LEN)).astype(
+                    np.int16), chunks=(1 + i, gen.TRACE_LEN),
+                **filt[(k + i + 3) % len(filt)])
+        logs = h5.create_group("logs")
+        logs.create_dataset("long-log", data=np.array(
+            [f"line {j} µ".encode() for j in range(n)], dtype="S40"),
+            chunks=(2,), **filt[(k + 1) % len(filt)])
+    return path
+
+
 def build_file(path, variant, seed, scratch):
     """Write a file with raw h5py covering a slice of the layout matrix."""
+    if variant >= 100:
+        return build_many(path, variant - 100, seed)
     rs = np.random.RandomState(seed + 5)
     lay = list(LAYOUTS)
     ev = gen.make_events(N, seed=seed, special=False)
@@ -410,6 +459,13 @@ def run(ctx):
             items.append(("condense", {"store_ancillary_features": anc,
                                        "store_basin_features": bas},
                           v, ctx.seed, scratch))
+    for v in range(100, 106 if ctx.thorough else 103):
+        items.append(("compress", {}, v, ctx.seed, scratch))
+        items.append(("repack", {"strip_logs": False, "strip_basins": False},
+                      v, ctx.seed, scratch))
+        items.append(("condense", {"store_ancillary_features": False,
+                                   "store_basin_features": True},
+                      v, ctx.seed, scratch))
     names = ["fmt-tdms_minimal_2016.zip", "fmt-tdms_fl-image_2016.zip",
              "fmt-tdms_2fl-no-image_2017.zip"]
     if ctx.thorough:
